@@ -61,7 +61,19 @@ var extra = []c03.Scenario{
 			{Op: "v", Arg: "restore out5 rep=v3snap"},
 			{Op: "v", Arg: "restore out6 rep=v3snap ic=full"},
 			{Op: "v", Arg: "restore out7 rep=v3wal"},
+			{Op: "v", Arg: "restore outbare1 rep=v3wal bare=1"},
 			{Op: "v", Arg: "restore out8 rep=v3wal ic=quick"},
+			{Op: "stop"},
+		},
+	},
+	{
+		Name: "T7",
+		Doc:  "restores whose output path has no directory component (relative to the working directory), current format",
+		Steps: []c03.Step{
+			{Op: "start"}, {Op: "w", Arg: "small"}, {Op: "v", Arg: "sync-wait"}, {Op: "w", Arg: "multi"}, {Op: "v", Arg: "sync-wait"}, {Op: "v", Arg: "snapshot"}, {Op: "w", Arg: "update"}, {Op: "v", Arg: "sync-wait"}, {Op: "v", Arg: "close"}, {Op: "stop"},
+			{Op: "startT"},
+			{Op: "v", Arg: "restore outbare2 bare=1"},
+			{Op: "v", Arg: "restore outbare3 bare=1 ic=full"},
 			{Op: "stop"},
 		},
 	},
@@ -163,7 +175,7 @@ func cases(run *vf.Run) ([]json.RawMessage, error) {
 			}
 		}
 	} else {
-		list = []sc{{"S1", "B"}, {"S2", "A"}, {"S3", "A"}, {"S4", "A"}, {"S5", "A"}, {"S5b", "A"}, {"S7", "A"}, {"T1", "A"}, {"T2", "A"}, {"S3", "B"}, {"S8", "A"}, {"T4", "A"}, {"T5", "A"}, {"T6", "A"}}
+		list = []sc{{"S1", "B"}, {"S2", "A"}, {"S3", "A"}, {"S4", "A"}, {"S5", "A"}, {"S5b", "A"}, {"S7", "A"}, {"T1", "A"}, {"T2", "A"}, {"S3", "B"}, {"S8", "A"}, {"T4", "A"}, {"T5", "A"}, {"T6", "A"}, {"T7", "A"}}
 	}
 	var out []json.RawMessage
 	for _, s := range list {
